@@ -1,10 +1,12 @@
 package main
 
 import (
+	"encoding/json"
 	"fmt"
 	"reflect"
 	"runtime"
 	"runtime/debug"
+	"strconv"
 
 	"github.com/cloudwego/frugal"
 	fdebug "github.com/cloudwego/frugal/debug"
@@ -14,7 +16,14 @@ import (
 func (c *stepCtx) stepLegacy(st map[string]interface{}) string {
 	call := str(st, "call", "")
 	arg := num(st, "arg", 0)
-	head := fmt.Sprintf(`"ev":"Legacy","call":%q,"arg":%d,"ty":%q,"obs":{`, call, arg, str(st, "ty", ""))
+	if a, err := strconv.ParseInt(str(st, "argstr", ""), 10, 64); err == nil {
+		arg = int(a) // values beyond 32 bits travel as decimal strings (TLC integers are 32-bit)
+	}
+	optsDesc, _ := json.Marshal(st["opts"])
+	if st["opts"] == nil {
+		optsDesc = []byte("[]")
+	}
+	head := fmt.Sprintf(`"ev":"Legacy","call":%q,"arg":"%d","opts":%s,"ty":%q,"obs":{`, call, arg, optsDesc, str(st, "ty", ""))
 	var res string
 	func() {
 		defer func() {
@@ -35,7 +44,27 @@ func (c *stepCtx) stepLegacy(st map[string]interface{}) string {
 				vt = reflect.TypeOf(0)
 			}
 			var err error
-			if call == "PretouchOpts" {
+			if ol, ok := st["opts"].([]interface{}); ok && call == "PretouchOpts" {
+				// an explicit list of options, in the given order: [["inline", a], ["ilsize", b], ["pretouch", c], ...]
+				var oo []frugal.Option
+				for _, o := range ol {
+					pr, _ := o.([]interface{})
+					if len(pr) != 2 {
+						continue
+					}
+					name, _ := pr[0].(string)
+					val, _ := pr[1].(float64)
+					switch name {
+					case "inline":
+						oo = append(oo, frugal.WithMaxInlineDepth(int(val)))
+					case "ilsize":
+						oo = append(oo, frugal.WithMaxInlineILSize(int(val)))
+					case "pretouch":
+						oo = append(oo, frugal.WithMaxPretouchDepth(int(val)))
+					}
+				}
+				err = frugal.Pretouch(vt, oo...)
+			} else if call == "PretouchOpts" {
 				err = frugal.Pretouch(vt, frugal.WithMaxInlineDepth(arg), frugal.WithMaxInlineILSize(arg*100), frugal.WithMaxPretouchDepth(arg))
 			} else {
 				err = frugal.Pretouch(vt)
@@ -43,18 +72,18 @@ func (c *stepCtx) stepLegacy(st map[string]interface{}) string {
 			if err != nil {
 				res = `"out":"err",` + errObs(err)
 			} else {
-				res = `"out":"ok","ret":0,"zero":true`
+				res = `"out":"ok","ret":"0","zero":true`
 			}
 		case "NoJIT":
 			frugal.NoJIT(arg != 0)
-			res = `"out":"ok","ret":0,"zero":true`
+			res = `"out":"ok","ret":"0","zero":true`
 		case "SetMaxInlineDepth":
-			res = fmt.Sprintf(`"out":"ok","ret":%d,"zero":true`, frugal.SetMaxInlineDepth(arg))
+			res = fmt.Sprintf(`"out":"ok","ret":"%d","zero":true`, frugal.SetMaxInlineDepth(arg))
 		case "SetMaxInlineILSize":
-			res = fmt.Sprintf(`"out":"ok","ret":%d,"zero":true`, frugal.SetMaxInlineILSize(arg))
+			res = fmt.Sprintf(`"out":"ok","ret":"%d","zero":true`, frugal.SetMaxInlineILSize(arg))
 		case "GetStats":
 			s := fdebug.GetStats()
-			res = fmt.Sprintf(`"out":"ok","ret":0,"zero":%v`, s == fdebug.Stats{})
+			res = fmt.Sprintf(`"out":"ok","ret":"0","zero":%v`, s == fdebug.Stats{})
 		default:
 			res = `"out":"unknown"`
 		}
@@ -83,19 +112,48 @@ func (c *stepCtx) stepAllocs(st map[string]interface{}) string {
 	if _, pan := callSize(iface); pan != nil {
 		return head + panicObs(pan) + "}"
 	}
+	// "alt": a second (type, value) used alternately with the first - both long since warm
+	var iface2 interface{}
+	var holder2 reflect.Value
+	buf2 := buf
+	if alt, ok := st["alt"].(map[string]interface{}); ok {
+		_, holder2, iface2 = c.arg(alt)
+		buf2 = make([]byte, 1<<16)
+		if _, err, pan := callEncode(buf2, iface2); pan != nil || err != nil {
+			buf2 = make([]byte, 1<<24)
+			if _, err, pan := callEncode(buf2, iface2); pan != nil || err != nil {
+				return head + `"out":"err","alt":true,` + errObs(fmt.Errorf("alt value: %v %v", err, pan)) + "}"
+			}
+		}
+		if _, pan := callSize(iface2); pan != nil {
+			return head + panicObs(pan) + "}"
+		}
+		// once more in the order of the measurement
+		callSize(iface)
+		callSize(iface2)
+		callEncode(buf, iface)
+		callEncode(buf2, iface2)
+	}
 	old := debug.SetGCPercent(-1)
 	defer debug.SetGCPercent(old)
 	var m0, m1, m2 runtime.MemStats
 	runtime.ReadMemStats(&m0)
 	for i := 0; i < calls; i++ {
 		frugal.EncodedSize(iface)
+		if iface2 != nil {
+			frugal.EncodedSize(iface2)
+		}
 	}
 	runtime.ReadMemStats(&m1)
 	for i := 0; i < calls; i++ {
 		frugal.EncodeObject(buf, nil, iface)
+		if iface2 != nil {
+			frugal.EncodeObject(buf2, nil, iface2)
+		}
 	}
 	runtime.ReadMemStats(&m2)
 	runtime.KeepAlive(holder)
+	runtime.KeepAlive(holder2)
 	return head + fmt.Sprintf(`"out":"ok","n":%d,"size_mallocs":%d,"enc_mallocs":%d}`, n0,
 		clamp(m1.Mallocs-m0.Mallocs), clamp(m2.Mallocs-m1.Mallocs))
 }
